@@ -88,13 +88,12 @@ theorem get_applySettingsMap (s : Settings) (raw : List (String × Json)) (l : L
 
 /-! ### normalisation, field by field -/
 
-theorem get_resetIf (s : Settings) (r : Leaf × NormCond) (l : Leaf)
-    (hr : typeOK r.1 (HL.Settings.get defaults r.1) = true) :
+theorem get_resetIf (s : Settings) (r : NormRule) (l : Leaf)
+    (hr : typeOK r.leaf r.value = true) :
     HL.Settings.get (resetIf s r) l =
-      if r.1 = l then (if r.2.holds (HL.Settings.get s l) then HL.Settings.get defaults l else HL.Settings.get s l)
-      else HL.Settings.get s l := by
-  unfold resetIf
-  by_cases h : r.1 = l
+      if r.leaf = l then stepVal (HL.Settings.get s l) r else HL.Settings.get s l := by
+  unfold resetIf stepVal
+  by_cases h : r.leaf = l
   · subst h
     simp only [if_true]
     split
@@ -105,37 +104,24 @@ theorem get_resetIf (s : Settings) (r : Leaf × NormCond) (l : Leaf)
     · exact get_set_ne _ _ _ _ (fun h' => h h'.symm)
     · rfl
 
-theorem get_foldl_resetIf (rules : List (Leaf × NormCond)) (s : Settings) (l : Leaf)
-    (hty : ∀ r ∈ rules, typeOK r.1 (HL.Settings.get defaults r.1) = true)
-    (hnd : (rules.map (·.1)).Nodup) :
+theorem get_foldl_resetIf (rules : List NormRule) (s : Settings) (l : Leaf)
+    (hty : ∀ r ∈ rules, typeOK r.leaf r.value = true) :
     HL.Settings.get (rules.foldl resetIf s) l =
-      match rules.lookup l with
-      | some c => if c.holds (HL.Settings.get s l) then HL.Settings.get defaults l else HL.Settings.get s l
-      | none => HL.Settings.get s l := by
+      (rules.filter fun r => r.leaf = l).foldl stepVal (HL.Settings.get s l) := by
   induction rules generalizing s with
   | nil => rfl
   | cons r rules ih =>
-    obtain ⟨l', c⟩ := r
-    simp only [List.map_cons, List.nodup_cons] at hnd
     simp only [List.foldl_cons]
-    rw [ih _ (fun r hr => hty r (List.mem_cons_of_mem _ hr)) hnd.2,
-      get_resetIf _ _ _ (hty (l', c) (List.mem_cons_self ..))]
-    by_cases h : l' = l
-    · subst h
-      have hno : rules.lookup l' = none := by
-        rw [List.lookup_eq_none_iff]
-        intro p hp
-        simp only [bne_iff_ne, ne_eq]
-        intro heq
-        exact hnd.1 (by rw [heq]; exact List.mem_map_of_mem hp)
-      simp [List.lookup, hno]
-    · have h' : (l == l') = false := by simpa using fun e => h e.symm
-      simp [List.lookup, h, h']
+    rw [ih _ (fun r hr => hty r (List.mem_cons_of_mem _ hr)),
+      get_resetIf _ _ _ (hty r (List.mem_cons_self ..))]
+    by_cases h : r.leaf = l
+    · simp [h]
+    · simp [h]
 
 theorem get_normalize (s : Settings) (l : Leaf) :
     HL.Settings.get (normalize s) l = normLeaf l (HL.Settings.get s l) := by
   unfold normalize normLeaf
-  exact get_foldl_resetIf normRules s l (by decide) (by decide)
+  exact get_foldl_resetIf normRules s l (by decide)
 
 
 /-- settings are determined by their fields -/
@@ -170,36 +156,95 @@ theorem ext_get (a b : Settings) (h : ∀ l, HL.Settings.get a l = HL.Settings.g
   subst_vars
   rfl
 
-/-- `normRules` as a function -/
-def ruleOf : Leaf → Option NormCond
-  | .cMaxResults | .oIndentSize | .xTimeout | .lMaxFileSizeBytes | .lMaxIncludeDepth => some .nonPositive
-  | .xPath => some .emptyString
-  | _ => none
+/-- `normLeaf` in closed form: what `normalizeServerSettings` does to each field -/
+def normVal : Leaf → Val → Val
+  | .cMaxResults, .i n => .i (if n ≤ 0 then 50 else n)
+  | .oIndentSize, .i n => .i (if n ≤ 0 then 4 else if n > 32 then 32 else n)
+  | .oMinAlignmentColumn, .i n => .i (if n < 0 then 0 else if n > 500 then 500 else n)
+  | .xPath, .s p => .s (if p = "" then "hledger" else p)
+  | .xTimeout, .i n => .i (if n ≤ 0 then 30000000000 else n)
+  | .lMaxFileSizeBytes, .i n => .i (if n ≤ 0 then 10485760 else n)
+  | .lMaxIncludeDepth, .i n => .i (if n ≤ 0 then 50 else n)
+  | _, v => v
 
-theorem lookup_eq_ruleOf (l : Leaf) : normRules.lookup l = ruleOf l := by cases l <;> rfl
+/-- the statements of `normalizeServerSettings` about one field -/
+def rulesOf : Leaf → List NormRule
+  | .cMaxResults => [⟨.cMaxResults, .nonPositive, .default⟩]
+  | .oIndentSize => [⟨.oIndentSize, .nonPositive, .default⟩, ⟨.oIndentSize, .above 32, .const 32⟩]
+  | .oMinAlignmentColumn => [⟨.oMinAlignmentColumn, .negative, .default⟩,
+      ⟨.oMinAlignmentColumn, .above 500, .const 500⟩]
+  | .xPath => [⟨.xPath, .emptyString, .default⟩]
+  | .xTimeout => [⟨.xTimeout, .nonPositive, .default⟩]
+  | .lMaxFileSizeBytes => [⟨.lMaxFileSizeBytes, .nonPositive, .default⟩]
+  | .lMaxIncludeDepth => [⟨.lMaxIncludeDepth, .nonPositive, .default⟩]
+  | _ => []
 
-theorem normLeaf_eq (l : Leaf) (v : Val) :
-    normLeaf l v = match ruleOf l with
-      | some c => if c.holds v then HL.Settings.get defaults l else v
-      | none => v := by
-  unfold normLeaf; rw [lookup_eq_ruleOf]; rfl
+theorem rulesOf_eq (l : Leaf) : (normRules.filter fun r => r.leaf = l) = rulesOf l := by
+  cases l <;> rfl
 
-theorem default_not_reset (l : Leaf) (c : NormCond) :
-    normRules.lookup l = some c → c.holds (HL.Settings.get defaults l) = false := by
-  cases l <;> cases c <;> decide
+theorem stepVal_b (b : Bool) (r : NormRule) : stepVal (.b b) r = .b b := by
+  unfold stepVal; cases hc : r.cond <;> simp [NormCond.holds]
+
+theorem stepVal_nonPositive (l : Leaf) (n : Int) :
+    stepVal (.i n) ⟨l, .nonPositive, .default⟩ = if n ≤ 0 then HL.Settings.get defaults l else .i n := by
+  simp [stepVal, NormCond.holds, NormRule.value]
+
+theorem stepVal_negative (l : Leaf) (n : Int) :
+    stepVal (.i n) ⟨l, .negative, .default⟩ = if n < 0 then HL.Settings.get defaults l else .i n := by
+  simp [stepVal, NormCond.holds, NormRule.value]
+
+theorem stepVal_above (l : Leaf) (n m : Int) :
+    stepVal (.i n) ⟨l, .above m, .const m⟩ = if n > m then .i m else .i n := by
+  simp [stepVal, NormCond.holds, NormRule.value]
+
+theorem stepVal_empty (l : Leaf) (p : String) :
+    stepVal (.s p) ⟨l, .emptyString, .default⟩ = if p = "" then HL.Settings.get defaults l else .s p := by
+  simp [stepVal, NormCond.holds, NormRule.value]
+
+theorem stepVal_s_int (p : String) (l : Leaf) (c : NormCond) (t : NormTo) (hc : c ≠ .emptyString) :
+    stepVal (.s p) ⟨l, c, t⟩ = .s p := by
+  unfold stepVal; cases c <;> simp_all [NormCond.holds]
+
+theorem stepVal_i_empty (n : Int) (l : Leaf) (t : NormTo) :
+    stepVal (.i n) ⟨l, .emptyString, t⟩ = .i n := by
+  simp [stepVal, NormCond.holds]
+
+theorem foldl_stepVal_b (b : Bool) (rs : List NormRule) : rs.foldl stepVal (.b b) = .b b := by
+  induction rs with
+  | nil => rfl
+  | cons r rs ih => simp only [List.foldl_cons, stepVal_b, ih]
+
+theorem normLeaf_eq (l : Leaf) (v : Val) : normLeaf l v = normVal l v := by
+  unfold normLeaf
+  rw [rulesOf_eq]
+  cases v with
+  | b x =>
+    rw [foldl_stepVal_b]
+    cases l <;> rfl
+  | i n =>
+    cases l <;> simp only [rulesOf, List.foldl_cons, List.foldl_nil, normVal, stepVal_nonPositive,
+      stepVal_negative, stepVal_i_empty, HL.Settings.get, defaults, defaultLimits, millisecond]
+    · split <;> rfl
+    · by_cases h : n ≤ 0
+      · simp only [h, if_true, stepVal_above]; simp
+      · simp only [h, if_false, stepVal_above]; split <;> rfl
+    · by_cases h : n < 0
+      · simp only [h, if_true, stepVal_above]; simp
+      · simp only [h, if_false, stepVal_above]; split <;> rfl
+    · split <;> rfl
+    · split <;> rfl
+    · split <;> rfl
+  | s p =>
+    cases l <;> simp only [rulesOf, List.foldl_cons, List.foldl_nil, normVal, stepVal_empty,
+      HL.Settings.get, defaults] <;>
+      first | rfl | (split <;> rfl) | (simp [stepVal_s_int])
+
+theorem normVal_idem (l : Leaf) (v : Val) : normVal l (normVal l v) = normVal l v := by
+  cases l <;> cases v <;> simp only [normVal] <;>
+    (repeat' split) <;> first | rfl | (exfalso; omega) | (simp_all; done) | skip
 
 theorem normLeaf_idem (l : Leaf) (v : Val) : normLeaf l (normLeaf l v) = normLeaf l v := by
-  unfold normLeaf
-  cases hl : normRules.lookup l with
-  | none => rfl
-  | some c =>
-    simp only
-    by_cases hc : c.holds v = true
-    · simp only [hc, if_true]
-      -- the default is never reset again
-      have : c.holds (HL.Settings.get defaults l) = false := default_not_reset l c hl
-      simp [this]
-    · simp [hc]
+  rw [normLeaf_eq, normLeaf_eq, normVal_idem]
 
 /-- `normalizeServerSettings` is idempotent. -/
 theorem normalize_idem (s : Settings) : normalize (normalize s) = normalize s := by
@@ -217,67 +262,63 @@ theorem normal_get (s : Settings) (h : Normal s) (l : Leaf) :
   rw [← get_normalize, h]
 
 
-/-! ### parseSettingsFromRaw: which object is read -/
+/-! ### parseSettingsFromRaw: which objects are read -/
+
+open HL.SettingsSpec (levels levelsIn)
 
 mutual
-/-- the object `applySettingsMap` ends up reading: the innermost object of the `hledger`
-    chain; none when the payload, or the last `hledger` member, is not an object -/
-def target : Json → Option (List (String × Json))
-  | .obj kvs =>
-    match targetIn kvs with
-    | some r => r
-    | none => some kvs
-  | _ => none
-def targetIn : List (String × Json) → Option (Option (List (String × Json)))
-  | [] => none
-  | (k, v) :: r => if k = "hledger" then some (target v) else targetIn r
-end
-
-/-- what a payload does before normalisation -/
-def applyTarget (base : Settings) (j : Json) : Settings :=
-  match target j with
-  | some kvs => applySettingsMap base kvs
-  | none => base
-
-mutual
+/-- **The wrapper, for every JSON shape.**  `parseSettingsFromRaw` applies every object of the
+    `hledger` chain — the payload itself, its member `hledger` if that is an object, that
+    object's member `hledger` if …, exactly the `levels` of the statement's rule — outermost
+    first, and normalises once at the end.  Anything that is not an object contributes
+    nothing. -/
 theorem parse_eq (base : Settings) : ∀ j : Json,
-    parseSettingsFromRaw base j = normalize (applyTarget base j)
+    parseSettingsFromRaw base j = normalize ((levels j).foldl applySettingsMap base)
   | .obj kvs => by
-    have h := parseNested_eq base kvs
-    unfold parseSettingsFromRaw applyTarget target
-    cases hn : parseNested base kvs with
-    | none =>
-      rw [hn] at h
-      have ht : targetIn kvs = none := by
-        cases hh : targetIn kvs with
-        | none => rfl
-        | some t => rw [hh] at h; simp at h
-      simp only [ht]
-    | some r =>
-      rw [hn] at h
-      cases ht : targetIn kvs with
-      | none => rw [ht] at h; simp at h
-      | some t =>
-        rw [ht] at h
-        simp only [Option.map_some, Option.some.injEq] at h
-        simp only [h]
-  | .null => by unfold parseSettingsFromRaw applyTarget target; rfl
-  | .bool _ => by unfold parseSettingsFromRaw applyTarget target; rfl
-  | .num _ _ => by unfold parseSettingsFromRaw applyTarget target; rfl
-  | .str _ => by unfold parseSettingsFromRaw applyTarget target; rfl
-  | .arr _ => by unfold parseSettingsFromRaw applyTarget target; rfl
-theorem parseNested_eq (base : Settings) : ∀ kvs : List (String × Json),
-    parseNested base kvs = (targetIn kvs).map fun t =>
-      normalize (match t with | some m => applySettingsMap base m | none => base)
-  | [] => by simp [parseNested, targetIn]
+    have h := parseNested_eq (applySettingsMap base kvs) kvs
+    unfold parseSettingsFromRaw levels
+    simp only [List.foldl_cons]
+    rw [← h]
+    cases parseNested (applySettingsMap base kvs) kvs <;> rfl
+  | .null => by unfold parseSettingsFromRaw levels; rfl
+  | .bool _ => by unfold parseSettingsFromRaw levels; rfl
+  | .num _ _ => by unfold parseSettingsFromRaw levels; rfl
+  | .str _ => by unfold parseSettingsFromRaw levels; rfl
+  | .arr _ => by unfold parseSettingsFromRaw levels; rfl
+theorem parseNested_eq (s : Settings) : ∀ kvs : List (String × Json),
+    (parseNested s kvs).getD (normalize s) = normalize ((levelsIn kvs).foldl applySettingsMap s)
+  | [] => by simp [parseNested, levelsIn]
   | (k, v) :: r => by
-    unfold parseNested targetIn
+    unfold parseNested levelsIn
     by_cases hk : k = "hledger"
-    · simp only [hk, if_true, Option.map_some]
-      rw [parse_eq base v]
-      rfl
+    · simp only [hk, if_true]
+      cases v with
+      | obj m => simp only [Option.getD_some]; exact parse_eq s (.obj m)
+      | null => simp [levels]
+      | bool _ => simp [levels]
+      | num _ _ => simp [levels]
+      | str _ => simp [levels]
+      | arr _ => simp [levels]
     · simp only [hk, if_false]
-      exact parseNested_eq base r
+      exact parseNested_eq s r
 end
+
+/-- the values the statements of `applySettingsMap` assign to field `l` over the whole chain,
+    in the order in which they are assigned -/
+def allCandidates (j : Json) (l : Leaf) : List Val := (levels j).flatMap fun m => candidates m l
+
+theorem getLast?_append_getD (a b : List Val) (d : Val) :
+    ((a ++ b).getLast?).getD d = (b.getLast?).getD ((a.getLast?).getD d) := by
+  rw [List.getLast?_append]
+  cases b.getLast? <;> simp
+
+theorem get_foldl_levels (lv : List (List (String × Json))) (s : Settings) (l : Leaf) :
+    HL.Settings.get (lv.foldl applySettingsMap s) l =
+      (((lv.flatMap fun m => candidates m l).getLast?)).getD (HL.Settings.get s l) := by
+  induction lv generalizing s with
+  | nil => rfl
+  | cons m lv ih =>
+    simp only [List.foldl_cons, List.flatMap_cons]
+    rw [ih, get_applySettingsMap, getLast?_append_getD]
 
 end HL.Lemmas.Settings
